@@ -19,37 +19,37 @@ pub fn spec(id: &str) -> Option<HistProp> {
     Some(match id {
         "C01" => HistProp {
             id: "C01",
-            quick: 640,
+            quick: 3200,
             thorough: 20_000,
             rule: "generated histories (<=40 ops over append/register/import/remove/clock/drain/reopen/read/get/head) run against a real store in an executor process and the reference model; non-trivial = the history has a remove, an observed expiry or an import before a read that uses last-id, limit or a context; distinct = distinct (layout, contexts, op-kind sequence) hash",
         },
         "C05" => HistProp {
             id: "C05",
-            quick: 640,
+            quick: 3200,
             thorough: 20_000,
             rule: "histories weighted to prefix-related topics (\"\", a, ab, abc, a\\x01, a\\xff...) in several contexts with NUL-topic appends/imports interleaved; at settled points and after reopen: get <=> all-stream <=> own-context stream for every id ever issued, head == last frame of exactly that topic for (topics used + one-byte extensions/truncations) x contexts; non-trivial = two stored topics where one is a byte-prefix of the other in one context and a remove/GC/import happened; distinct by op-kind sequence hash",
         },
         "C07" => HistProp {
             id: "C07",
-            quick: 640,
+            quick: 3200,
             thorough: 16_000,
             rule: "histories weighted to register / register-in-non-zero / remove / import of xs.context frames and appends into registered, never-registered, unregistered-again and frame-id contexts, with reopen (SIGKILL + new process) anywhere; oracle: append accepted <=> registration frame stored in the zero context; non-trivial = a reopen after a registration change (removal or import of a registration frame); distinct by op-kind sequence hash",
         },
         "C08" => HistProp {
             id: "C08",
-            quick: 640,
+            quick: 3200,
             thorough: 20_000,
             rule: "TTL-heavy histories on prefix-related topics in several contexts with the frozen clock placed at expiry-1ms / expiry / expiry+1ms and deferred drains; oracle: every frame the retention rules cannot have touched is returned by every path after every step; non-trivial = the collector removed something (expiry or head:K) while a prefix-related topic or the same topic in another context held frames; distinct by op-kind sequence hash",
         },
         "C09" => HistProp {
             id: "C09",
-            quick: 640,
+            quick: 3200,
             thorough: 20_000,
             rule: "TTL-heavy histories (ephemeral with a tail follower, time:N around the expiry instant, head:K with K 1..4 and u32::MAX); oracle: ephemeral delivered to the follower and never stored, expired frames never in a stream read and gone after read+drain, <=N frames (the newest) where the newest was appended with head:N; non-trivial = an expiry observed through read_sync and through read, or a head:K eviction with K>=2; distinct by op-kind sequence hash",
         },
         "C13" => HistProp {
             id: "C13",
-            quick: 480,
+            quick: 2400,
             thorough: 10_000,
             rule: "request sequences (<=25) over all HTTP routes written as raw HTTP/1.1 to the store's unix socket: valid appends (Content-Length and chunked bodies, xs-meta, ttl, context), imports, removes, lookups, heads, NDJSON and SSE reads with last-id/limit/context-id, interleaved with requests that must be refused (bad ids, TTLs, contexts, xs-meta payloads incl. raw non-ASCII bytes, option strings, CAS hashes, import bodies, unknown methods); after every request the store is compared with the reference model through the Store API; non-trivial = a refused request between two succeeding mutations, or an SSE read, or a malformed xs-meta; distinct by op-kind sequence hash",
         },
